@@ -19,6 +19,12 @@ Model of `CHText` / `CHText.Chunk` of `/repo/ak/color.py` (C08; shared with C09,
   (`Gen.C08`), so a change there re-opens `C08.format_cells` / `C08.fixedLen_cells`.
 * `pySlice`/`pyIndex` — Python's own `seq[i:j]` / `seq[i]` (used by `Chunk.__getitem__`, which calls
   `str` slicing directly, and as the *specification* the `CHText` operations are proved against).
+* The model is value-based: an operation takes values and returns a value, there are no object
+  identities. That is faithful because every operation of the real class except `+=` returns a new
+  object (`fixed_len` too, since fix ec75272) and `+=` reads a snapshot of its operand (fix 6257f6b),
+  so `t += t` and `t += [t]` are `iadd t (.text t)` / `iadd t (.list _ [.text t])`
+  (`C08.self_iadd`). Not covered: a list operand that mentions the target more than once
+  (`t += [t, t]` reads the second element after the first was appended: four copies, not three).
 * `Expr`/`eval` — operation trees with Python's operator dispatch (`__add__`/`__radd__`/`__iadd__`/
   `__eq__` by operand type). Combinations that are plain Python (`str + str`) or that the property
   does not speak about (`list += text`) are `Fail.unmodelled`, never a made-up answer.
@@ -189,7 +195,7 @@ def Text.fixedLen (t : Text) (n : Int) : Text :=
   let diff : Int := n - t.scrlen
   if diff < 0 then t.getSlice none (some n)
   else if diff > 0 then t.add (.str (spaces diff.toNat))
-  else t
+  else construct [.text t]      -- `type(self)(self)`: a new object (fix ec75272), never `self`
 
 /-! ### `__format__` -/
 
